@@ -31,6 +31,7 @@ def main():
     ap.add_argument("--tier", default="quick")
     ap.add_argument("--suite", action="store_true")
     ap.add_argument("--no-demo", action="store_true")
+    ap.add_argument("--no-checks", action="store_true")
     ap.add_argument("--seed", default="1")
     a = ap.parse_args()
     d = os.path.abspath(a.dir)
@@ -98,7 +99,7 @@ def main():
             res["suite_rc"] = rc
             res["suite_tail"] = out[-600:]
         res["checks"] = {}
-        for c in checks:
+        for c in ([] if a.no_checks else checks):
             env = dict(ENV, VERIF_REPO=wt, VERIF_SEED=a.seed)
             env.update({k: v for k, v in os.environ.items() if k.startswith("VERIF_")and k not in ("VERIF_REPO", "VERIF_SEED")})
             rc, out = sh("./check %s --tier %s" % (c, a.tier), VERIF, timeout=6000, env=env)
